@@ -7,193 +7,16 @@ import (
 	"strings"
 	"sync"
 
-	"github.com/smart-core-os/sc-api/go/traits"
-	"github.com/smart-core-os/sc-api/go/types"
 	"google.golang.org/grpc"
-	"google.golang.org/grpc/metadata"
 	"google.golang.org/protobuf/proto"
 	"google.golang.org/protobuf/reflect/protoreflect"
 
+	"github.com/smart-core-os/sc-golang/internal/verif/srvkit"
 	"github.com/smart-core-os/sc-golang/internal/verif/vk"
-	"github.com/smart-core-os/sc-golang/pkg/trait/accesspb"
-	"github.com/smart-core-os/sc-golang/pkg/trait/airqualitysensorpb"
-	"github.com/smart-core-os/sc-golang/pkg/trait/airtemperaturepb"
-	"github.com/smart-core-os/sc-golang/pkg/trait/bookingpb"
-	"github.com/smart-core-os/sc-golang/pkg/trait/countpb"
-	"github.com/smart-core-os/sc-golang/pkg/trait/electricpb"
-	"github.com/smart-core-os/sc-golang/pkg/trait/emergencypb"
-	"github.com/smart-core-os/sc-golang/pkg/trait/energystoragepb"
-	"github.com/smart-core-os/sc-golang/pkg/trait/enterleavesensorpb"
-	"github.com/smart-core-os/sc-golang/pkg/trait/fanspeedpb"
-	"github.com/smart-core-os/sc-golang/pkg/trait/hailpb"
-	"github.com/smart-core-os/sc-golang/pkg/trait/lightpb"
-	"github.com/smart-core-os/sc-golang/pkg/trait/metadatapb"
-	"github.com/smart-core-os/sc-golang/pkg/trait/meterpb"
-	"github.com/smart-core-os/sc-golang/pkg/trait/modepb"
-	"github.com/smart-core-os/sc-golang/pkg/trait/occupancysensorpb"
-	"github.com/smart-core-os/sc-golang/pkg/trait/onoffpb"
-	"github.com/smart-core-os/sc-golang/pkg/trait/openclosepb"
-	"github.com/smart-core-os/sc-golang/pkg/trait/parentpb"
-	"github.com/smart-core-os/sc-golang/pkg/trait/publicationpb"
-	"github.com/smart-core-os/sc-golang/pkg/trait/speakerpb"
-	"github.com/smart-core-os/sc-golang/pkg/trait/vendingpb"
-	"github.com/smart-core-os/sc-golang/pkg/trait/wastepb"
 )
 
-// registrar captures what a server registers.
-type registrar struct{ svcs []svc }
-
-type svc struct {
-	desc *grpc.ServiceDesc
-	impl any
-}
-
-func (g *registrar) RegisterService(desc *grpc.ServiceDesc, impl any) {
-	g.svcs = append(g.svcs, svc{desc, impl})
-}
-
-type registerer interface{ Register(grpc.ServiceRegistrar) }
-
-type serverEntry struct {
-	name string
-	mk   func() []svc
-}
-
-func viaRegister(f func() registerer) func() []svc {
-	return func() []svc {
-		var g registrar
-		f().Register(&g)
-		return g.svcs
-	}
-}
-
-func serverTable() []serverEntry {
-	return []serverEntry{
-		{"accesspb.ModelServer", func() []svc { return []svc{{&traits.AccessApi_ServiceDesc, accesspb.NewModelServer(accesspb.NewModel())}} }},
-		{"airqualitysensorpb.ModelServer", viaRegister(func() registerer { return airqualitysensorpb.NewModelServer(airqualitysensorpb.NewModel()) })},
-		{"airtemperaturepb.ModelServer", viaRegister(func() registerer { return airtemperaturepb.NewModelServer(airtemperaturepb.NewModel()) })},
-		{"airtemperaturepb.MemoryDevice", viaRegister(func() registerer { return airtemperaturepb.NewMemoryDevice() })},
-		{"bookingpb.ModelServer", viaRegister(func() registerer { return bookingpb.NewModelServer(bookingpb.NewModel()) })},
-		{"countpb.MemoryDevice", func() []svc { return []svc{{&traits.CountApi_ServiceDesc, countpb.NewMemoryDevice()}} }},
-		{"electricpb.ModelServer", viaRegister(func() registerer { return electricpb.NewModelServer(electricpb.NewModel()) })},
-		{"emergencypb.MemoryDevice", viaRegister(func() registerer { return emergencypb.NewMemoryDevice() })},
-		{"energystoragepb.ModelServer", viaRegister(func() registerer { return energystoragepb.NewModelServer(energystoragepb.NewModel()) })},
-		{"enterleavesensorpb.ModelServer", viaRegister(func() registerer { return enterleavesensorpb.NewModelServer(enterleavesensorpb.NewModel()) })},
-		{"fanspeedpb.ModelServer", viaRegister(func() registerer { return fanspeedpb.NewModelServer(fanspeedpb.NewModel()) })},
-		{"hailpb.ModelServer", viaRegister(func() registerer { return hailpb.NewModelServer(hailpb.NewModel()) })},
-		{"lightpb.ModelServer", viaRegister(func() registerer { return lightpb.NewModelServer(lightpb.NewModel()) })},
-		{"metadatapb.ModelServer", viaRegister(func() registerer { return metadatapb.NewModelServer(metadatapb.NewModel()) })},
-		{"meterpb.ModelServer", func() []svc { return []svc{{&traits.MeterApi_ServiceDesc, meterpb.NewModelServer(meterpb.NewModel())}} }},
-		{"modepb.ModelServer", viaRegister(func() registerer { return modepb.NewModelServer(modepb.NewModel()) })},
-		{"occupancysensorpb.ModelServer", viaRegister(func() registerer { return occupancysensorpb.NewModelServer(occupancysensorpb.NewModel()) })},
-		{"onoffpb.ModelServer", viaRegister(func() registerer { return onoffpb.NewModelServer(onoffpb.NewModel()) })},
-		{"openclosepb.ModelServer", viaRegister(func() registerer { return openclosepb.NewModelServer(openclosepb.NewModel()) })},
-		{"parentpb.ModelServer", func() []svc { return []svc{{&traits.ParentApi_ServiceDesc, parentpb.NewModelServer(parentpb.NewModel())}} }},
-		{"publicationpb.ModelServer", viaRegister(func() registerer { return publicationpb.NewModelServer(publicationpb.NewModel()) })},
-		{"speakerpb.MemoryDevice", viaRegister(func() registerer { return speakerpb.NewMemoryDevice(&types.AudioLevel{Gain: 10}) })},
-		{"vendingpb.ModelServer", viaRegister(func() registerer { return vendingpb.NewModelServer(vendingpb.NewModel()) })},
-		{"wastepb.ModelServer", func() []svc { return []svc{{&traits.WasteApi_ServiceDesc, wastepb.NewModelServer(wastepb.NewModel())}} }},
-	}
-}
-
-// fakeStream is the grpc.ServerStream handed to streaming handlers: it gives the request to the handler and retains
-// what the server sends, without copying (so the real pointers are seen).
-type fakeStream struct {
-	ctx  context.Context
-	req  proto.Message
-	took bool
-	send func(m proto.Message)
-}
-
-func (f *fakeStream) SetHeader(metadata.MD) error  { return nil }
-func (f *fakeStream) SendHeader(metadata.MD) error { return nil }
-func (f *fakeStream) SetTrailer(metadata.MD)       {}
-func (f *fakeStream) Context() context.Context     { return f.ctx }
-func (f *fakeStream) SendMsg(m any) error {
-	if pm, ok := m.(proto.Message); ok {
-		f.send(pm)
-	}
-	return nil
-}
-func (f *fakeStream) RecvMsg(m any) error {
-	if f.took {
-		<-f.ctx.Done()
-		return f.ctx.Err()
-	}
-	f.took = true
-	proto.Merge(m.(proto.Message), f.req)
-	return nil
-}
-
-// idPool remembers id-like strings seen in responses so that later requests address existing items.
-type idPool struct {
-	mu  sync.Mutex
-	ids []string
-}
-
-func (p *idPool) harvest(m protoreflect.Message, depth int) {
-	if depth > 3 {
-		return
-	}
-	m.Range(func(fd protoreflect.FieldDescriptor, v protoreflect.Value) bool {
-		switch {
-		case fd.Kind() == protoreflect.StringKind && !fd.IsList() && !fd.IsMap():
-			n := string(fd.Name())
-			if n == "id" || strings.HasSuffix(n, "_id") || n == "name" || n == "consumable" || n == "version" {
-				if s := v.String(); s != "" {
-					p.mu.Lock()
-					if len(p.ids) < 64 {
-						p.ids = append(p.ids, s)
-					}
-					p.mu.Unlock()
-				}
-			}
-		case fd.Message() != nil && fd.IsList():
-			l := v.List()
-			for i := 0; i < l.Len() && i < 4; i++ {
-				p.harvest(l.Get(i).Message(), depth+1)
-			}
-		case fd.Message() != nil && !fd.IsMap():
-			p.harvest(v.Message(), depth+1)
-		}
-		return true
-	})
-}
-
-func (p *idPool) apply(rng *vk.Rand, m protoreflect.Message, depth int) {
-	if depth > 3 {
-		return
-	}
-	p.mu.Lock()
-	ids := append([]string{}, p.ids...)
-	p.mu.Unlock()
-	fds := m.Descriptor().Fields()
-	for i := 0; i < fds.Len(); i++ {
-		fd := fds.Get(i)
-		n := string(fd.Name())
-		switch {
-		case fd.Kind() == protoreflect.StringKind && !fd.IsList() && !fd.IsMap() && (n == "id" || strings.HasSuffix(n, "_id") || n == "consumable" || n == "version"):
-			if len(ids) > 0 && rng.Chance(3, 4) {
-				m.Set(fd, protoreflect.ValueOfString(ids[rng.Intn(len(ids))]))
-			}
-		case n == "name" && fd.Kind() == protoreflect.StringKind && depth == 0:
-			m.Set(fd, protoreflect.ValueOfString("dev"))
-		case n == "update_mask" || n == "read_mask":
-			if rng.Chance(3, 4) {
-				m.Clear(fd) // mostly unmasked requests; masks are C05/C06's subject
-			} else {
-				m.Clear(fd)
-			}
-		case n == "page_size" || n == "page_token":
-			m.Clear(fd)
-		case fd.Message() != nil && !fd.IsList() && !fd.IsMap() && m.Has(fd):
-			p.apply(rng, m.Mutable(fd).Message(), depth+1)
-		}
-	}
-}
-
 func servers(r *vk.Run) {
-	table := serverTable()
+	table := srvkit.ServerTable()
 	nSeq := r.Pick(4, 300)
 	steps := r.Pick(100, 200)
 	caseNo := 0
@@ -210,10 +33,10 @@ func servers(r *vk.Run) {
 	r.Count("servers-in-table", len(table))
 }
 
-func serverSequence(r *vk.Run, ent serverEntry, rng *vk.Rand, steps int, caseNo int) {
-	svcs := ent.mk()
+func serverSequence(r *vk.Run, ent srvkit.ServerEntry, rng *vk.Rand, steps int, caseNo int) {
+	svcs := ent.Mk()
 	sh := vk.NewShadow()
-	pool := &idPool{}
+	pool := &srvkit.IDPool{Masks: true}
 	var obsMu sync.Mutex
 	stepNo := 0
 	observe := func(label string, m proto.Message) {
@@ -225,28 +48,28 @@ func serverSequence(r *vk.Run, ent serverEntry, rng *vk.Rand, steps int, caseNo 
 		obsMu.Unlock()
 		sh.Observe(label, s, m)
 		// also retain nested messages individually: aliasing often concerns a sub-message
-		pool.harvest(m.ProtoReflect(), 0)
+		pool.Harvest(m.ProtoReflect(), 0)
 	}
 	type meth struct {
-		s      svc
+		s      srvkit.Svc
 		unary  *grpc.MethodDesc
 		stream *grpc.StreamDesc
 		name   string
 	}
 	var ms []meth
 	for _, s := range svcs {
-		for i := range s.desc.Methods {
-			ms = append(ms, meth{s: s, unary: &s.desc.Methods[i], name: s.desc.Methods[i].MethodName})
+		for i := range s.Desc.Methods {
+			ms = append(ms, meth{s: s, unary: &s.Desc.Methods[i], name: s.Desc.Methods[i].MethodName})
 		}
-		for i := range s.desc.Streams {
-			if s.desc.Streams[i].ServerStreams && !s.desc.Streams[i].ClientStreams {
-				ms = append(ms, meth{s: s, stream: &s.desc.Streams[i], name: s.desc.Streams[i].StreamName})
+		for i := range s.Desc.Streams {
+			if s.Desc.Streams[i].ServerStreams && !s.Desc.Streams[i].ClientStreams {
+				ms = append(ms, meth{s: s, stream: &s.Desc.Streams[i], name: s.Desc.Streams[i].StreamName})
 			}
 		}
 	}
 	sort.Slice(ms, func(i, j int) bool { return ms[i].name < ms[j].name })
 	if len(ms) == 0 {
-		r.Inconclusive("c07-no-methods/"+ent.name, "server registered no service")
+		r.Inconclusive("c07-no-methods/"+ent.Name, "server registered no service")
 		return
 	}
 	var cancels []context.CancelFunc
@@ -262,7 +85,7 @@ func serverSequence(r *vk.Run, ent serverEntry, rng *vk.Rand, steps int, caseNo 
 		}
 		diffs := sh.VerifyAll()
 		for _, d := range diffs {
-			r.Violation(fmt.Sprintf("C07/%s/%s.%s", d.Label, ent.name, blame), fmt.Sprintf("server case %d step %d (%s): %v", caseNo, stepNo, what, d), map[string]any{"server": ent.name, "case": caseNo})
+			r.Violation(fmt.Sprintf("C07/%s/%s.%s", d.Label, ent.Name, blame), fmt.Sprintf("server case %d step %d (%s): %v", caseNo, stepNo, what, d), map[string]any{"server": ent.Name, "case": caseNo})
 		}
 		return len(diffs) == 0
 	}
@@ -278,18 +101,18 @@ func serverSequence(r *vk.Run, ent serverEntry, rng *vk.Rand, steps int, caseNo 
 			streams++
 			ctx, cancel := context.WithCancel(context.Background())
 			cancels = append(cancels, cancel)
-			fs := &fakeStream{ctx: ctx, send: func(pm proto.Message) { observe("stream-message:"+m.name, pm) }}
+			fs := &srvkit.FakeStream{Ctx: ctx, Send: func(pm proto.Message) { observe("stream-message:"+m.name, pm) }}
 			// request: built lazily from the type the handler asks for
 			reqFill := func(req proto.Message) {
 				g := vk.GenMessage(rng.Fork(), req, vk.GenOpts{Density: 20, MaxDepth: 1, MaxList: 1})
 				proto.Merge(req, g)
-				pool.apply(rng, req.ProtoReflect(), 0)
+				pool.Apply(rng, req.ProtoReflect(), 0)
 			}
-			fs.req = nil
+			fs.Req = nil
 			h := m.stream.Handler
 			go func() {
 				vk.Recover(func() {
-					_ = h(m.s.impl, &lazyStream{fakeStream: fs, fill: reqFill})
+					_ = h(m.s.Impl, &srvkit.LazyStream{FakeStream: fs, Fill: reqFill})
 				})
 			}()
 			r.Count("server-streams-opened", 1)
@@ -303,13 +126,13 @@ func serverSequence(r *vk.Run, ent serverEntry, rng *vk.Rand, steps int, caseNo 
 			req := x.(proto.Message)
 			g := vk.GenMessage(rng, req, vk.GenOpts{Density: 35, MaxDepth: 2, MaxList: 2})
 			proto.Merge(req, g)
-			pool.apply(rng, req.ProtoReflect(), 0)
+			pool.Apply(rng, req.ProtoReflect(), 0)
 			captured = req
 			return nil
 		}
 		var resp any
 		var err error
-		panicked, what := vk.Recover(func() { resp, err = m.unary.Handler(m.s.impl, context.Background(), dec, nil) })
+		panicked, what := vk.Recover(func() { resp, err = m.unary.Handler(m.s.Impl, context.Background(), dec, nil) })
 		r.Eval(1)
 		r.Count("server-calls", 1)
 		outcome := "ok"
@@ -320,9 +143,9 @@ func serverSequence(r *vk.Run, ent serverEntry, rng *vk.Rand, steps int, caseNo 
 		} else if err != nil {
 			outcome = "error"
 		}
-		r.Distinct(ent.name + "." + m.name + ":" + outcome)
+		r.Distinct(ent.Name + "." + m.name + ":" + outcome)
 		if captured != nil {
-			r.Distinct(ent.name + "." + m.name + ":" + vk.JSON(captured)) // distinct requests
+			r.Distinct(ent.Name + "." + m.name + ":" + vk.JSON(captured)) // distinct requests
 		}
 		if pm, ok := resp.(proto.Message); ok && err == nil {
 			observe("response:"+m.name, pm)
@@ -344,7 +167,7 @@ func serverSequence(r *vk.Run, ent serverEntry, rng *vk.Rand, steps int, caseNo 
 				if strings.HasPrefix(d.Label, "response:"+m.name) && d.Step == st {
 					cls = "result-aliases-input"
 				}
-				r.Violation(fmt.Sprintf("C07/%s/%s.%s", cls, ent.name, m.name), fmt.Sprintf("server case %d step %d: after the caller modified the request it had passed to %s a retained message changed: %v", caseNo, st, m.name, d), map[string]any{"server": ent.name, "case": caseNo})
+				r.Violation(fmt.Sprintf("C07/%s/%s.%s", cls, ent.Name, m.name), fmt.Sprintf("server case %d step %d: after the caller modified the request it had passed to %s a retained message changed: %v", caseNo, st, m.name, d), map[string]any{"server": ent.Name, "case": caseNo})
 			}
 			if len(diffs) > 0 {
 				return
@@ -353,24 +176,8 @@ func serverSequence(r *vk.Run, ent serverEntry, rng *vk.Rand, steps int, caseNo 
 	}
 	r.Count("server-retained-messages", sh.Len())
 	if r.WantSample("server") {
-		r.Sample("server", map[string]any{"server": ent.name, "methods": len(ms), "retained": sh.Len()})
+		r.Sample("server", map[string]any{"server": ent.Name, "methods": len(ms), "retained": sh.Len()})
 	}
-}
-
-// lazyStream fills the request when the handler asks for it (the request type is only known then).
-type lazyStream struct {
-	*fakeStream
-	fill func(proto.Message)
-}
-
-func (l *lazyStream) RecvMsg(m any) error {
-	if l.took {
-		<-l.ctx.Done()
-		return l.ctx.Err()
-	}
-	l.took = true
-	l.fill(m.(proto.Message))
-	return nil
 }
 
 // scribbleStrings overwrites every string and nested message scalar reachable from m, so that aliasing of any
